@@ -761,4 +761,38 @@ example : runReq (.slash (.addWith ⟨true, 301⟩) "//example.com".toList [] "/
 example : runReq (.static true ⟨[".".toList, "%2e%2e".toList], []⟩ "%2e%2e".toList "//%2e%2e".toList) =
     .redirect 301 "/%2e%2e/".toList := by decide
 
+/-! ## parts of the URL that are present but empty (round 5) -/
+
+/-- **C17_url_same_host** — whatever else the request URL carries (a bare `?`, a `RawPath`, a
+    fragment, a host): a redirect of a slash middleware for a path starting with `/` stays on
+    the host -/
+theorem C17_url_same_host (k : SlashCtor) (u : URL) (ru : List Char) (hp : u.path.head? = some '/')
+    (code : Nat) (loc : List Char) (h : slashURL k u ru = .redirect code loc) : SameHost loc :=
+  C17_req_same_host (.slash k u.path u.queryString ru) hp code loc h
+
+/-- the answer is a function of `Path` and `RawQuery` alone -/
+theorem C17_url_parts_ignored (k : SlashCtor) (u u' : URL) (ru : List Char)
+    (hp : u.path = u'.path) (hq : u.rawQuery = u'.rawQuery) : slashURL k u ru = slashURL k u' ru := by
+  unfold slashURL URL.queryString; rw [hp, hq]
+
+/-- **C17_bare_query** — a request target that ends in a bare `?` (empty query, `ForceQuery` set or
+    not): for an ordinary path the target is exactly the path with the slash added or removed —
+    not the original path, and without a `?` -/
+theorem C17_bare_query (code : Nat) (u : URL) (ru : List Char) (ho : Ordinary u.path)
+    (hq : u.rawQuery = []) (hc : 300 ≤ code ∧ code ≤ 308) :
+    (endsWithSlash u.path = false →
+      slashURL (.addWith ⟨false, code⟩) u ru = .redirect code (u.path ++ ['/'])) ∧
+    slashURL (.removeWith ⟨false, code⟩) { u with path := u.path ++ ['/'] } ru = .redirect code u.path := by
+  have h := C17_ordinary_ctor code u.path [] ru ho hc
+  simp only [queryPart, List.isEmpty_nil, if_true, List.append_nil] at h
+  unfold slashURL URL.queryString
+  simp only [hq]
+  exact h
+
+example : slashURL (.addWith ⟨false, 301⟩) { path := "//example.com".toList, forceQuery := true } [] =
+    .redirect 301 "/example.com/".toList := by decide
+example : slashURL (.addWith ⟨false, 301⟩)
+    { path := "/users".toList, forceQuery := true, fragment := "f".toList,
+      host := "evil.com".toList, rawPath := "/users".toList } [] = .redirect 301 "/users/".toList := by decide
+
 end C17
